@@ -53,6 +53,10 @@ Draw(j) == DrawN(j, NAgents)
 EndPeriod == EndPeriodN(NVars)
 KNext == SplitPeriod \/ (\E j \in 1..NVars : Draw(j)) \/ EndPeriod
 KSpec == KInit /\ [][KNext]_kvars
+\* liveness: under weak fairness the simulation runs through all periods, every stochastic variable having drawn in each
+KFair == KSpec /\ WF_kvars(KNext)
+AllPeriodsSimulated == <>(period = NPeriods)
+EveryVariableDrawsInEveryPeriod == \A t \in 0..NPeriods - 1 : <>(period = t /\ drawn = 1..NVars)
 
 (* ------------------------------------------------------------ the property on the specification *)
 \* linearity: a key about to be consumed has never been consumed before
